@@ -136,6 +136,12 @@ def diff_records_tolerant(expected, got, data, want, layout):
     return d
 
 
+def is_parse_error(exc):
+    """DiffXParseError or any subclass of it."""
+    from pydiffx.errors import DiffXParseError
+    return isinstance(exc, DiffXParseError)
+
+
 def exc_mechanism(exc):
     """(class name, innermost pydiffx function) of an exception."""
     import traceback
